@@ -76,6 +76,28 @@ func checkC13(c *Ctx) *report.Result {
 	r.Sample(map[string]interface{}{"rule": "L-inv", "states": len(states), "example": fmt.Sprintf("{%s} -> {%s}", states[20], ppuDocNext(states[20]))})
 	r.Sample(map[string]interface{}{"rule": "L-inv", "first_line_cut": fmt.Sprintf("{%s} -> {%s}", states[62], ppuDocNext(states[62]))})
 
+	// the published line number is recomputed by every step from the tick counter alone: whatever a write to the
+	// read-only LY register left in it, the step that follows publishes the documented line again
+	{
+		pm := m
+		pm.symLY = true
+		var badLY []string
+		n := 0
+		for _, s := range states {
+			if k := s.T % 114; !(k == 0 || k == 1 || k == 20 || k == 61 || k == 113) {
+				continue
+			}
+			n++
+			st := pm.step(s)
+			want := ppuDocNext(s)
+			if !(st.OK && st.To.LY == want.LY) && len(badLY) < 4 {
+				badLY = append(badLY, fmt.Sprintf("from {%s} with LY overwritten: the step publishes LY %d (constant %v), documented %d", s, st.To.LY, st.OK, want.LY))
+			}
+		}
+		pm.symLY = false
+		r.Ob("L-inv", len(badLY) == 0, "every step recomputes the published LY from the tick counter, whatever it held", where, strings.Join(badLY, "; "))
+		r.Instances["L-inv"] += n
+	}
 	// ---- L-switch
 	{
 		on := m.lcdcWrite(true, false, nil)
